@@ -109,4 +109,4 @@ KNOWN_PREDICATES = {}
 
 # coverage-guided second driver (atheris / libFuzzer through Hypothesis' fuzz_one_input) for the core clauses: (clause, quick runs, thorough runs)
 from harness.covfuzz import cov_clauses  # noqa: E402
-CLAUSES += cov_clauses('C05', CLAUSES, [('match', 4000, 80000), ('simplify', 4000, 80000)])
+CLAUSES += cov_clauses('C05', CLAUSES, [('match', 4000, 26666), ('simplify', 4000, 26666)])
